@@ -846,6 +846,18 @@ func (e *Executor) Execute(ctx context.Context, m File) (err error) {
 			Hash:        hash,
 		}
 	}
+	if r.Applied > 0 {
+		// If the file has been applied partially before, check if the applied
+		// statements have not changed. Do it before the revision is written
+		// for the first time: a refused run leaves the history untouched.
+		for i := 0; i < r.Applied; i++ {
+			if i >= len(sums) || sums[i] != strings.TrimPrefix(r.PartialHashes[i], "h1:") {
+				err = HistoryChangedError{m.Name(), i + 1}
+				e.log.Log(LogError{Error: err})
+				return err
+			}
+		}
+	}
 	// Save once to mark as started in the database.
 	simPoint("exec:before-init-write")
 	if err = e.writeRevision(ctx, r); err != nil {
@@ -863,17 +875,6 @@ func (e *Executor) Execute(ctx context.Context, m File) (err error) {
 			simPoint("exec:after-final-write")
 		}
 	}(ctx, e, r)
-	if r.Applied > 0 {
-		// If the file has been applied partially before, check if the
-		// applied statements have not changed.
-		for i := 0; i < r.Applied; i++ {
-			if i >= len(sums) || sums[i] != strings.TrimPrefix(r.PartialHashes[i], "h1:") {
-				err = HistoryChangedError{m.Name(), i + 1}
-				e.log.Log(LogError{Error: err})
-				return err
-			}
-		}
-	}
 	// The statements that were not applied yet may have been edited since the
 	// last attempt. Keep the revision in sync with the file it describes.
 	r.Total, r.Hash = len(stmts), hash
